@@ -53,7 +53,17 @@ Block::is_transfering() const {
 
 BlockTransfer*
 Block::insert(PeerInfo* peerInfo) {
-  if (find_queued(peerInfo) || find_transfer(peerInfo))
+  if (find_queued(peerInfo))
+    return NULL;
+
+  // A finished transfer left over from an earlier, hash-failed attempt (kept so that mark_failed_peers can
+  // still tell who sent what) must not block the peer for ever: once the block has been reset by
+  // BlockList::do_all_failed every connected peer may have supplied it once, and nobody could be asked again.
+  auto live = std::find_if(m_transfers.begin(), m_transfers.end(), [this, peerInfo](BlockTransfer* t) {
+    return peerInfo == t->peer_info() && !(t != m_leader && t->is_leader() && t->is_finished() && !t->is_valid());
+  });
+
+  if (live != m_transfers.end())
     return NULL;
 
   m_notStalled++;
